@@ -1354,3 +1354,16 @@ package zygo
 // and debug counters/mutex (msgpHelper, precounts, postcounts, tsPrintfMut). Any other package
 // variable that becomes writable after init is a failed obligation.
 //@ globalstate C20 | GoStructRegistry, ListRegisteredTypes, ShellCmd, Verbose, arrayOp, continuationPrompt, msgpHelper, postcounts, precounts, tsPrintfMut
+
+// C16: the script-level operations on a delayed argument. substitute gives back the source
+// expression and evaluates nothing (pure); force on a delayed argument is Force, on anything
+// else the value itself; the compile-time route wraps the source expression it was given.
+//@ func SubstituteFunction
+//@ C16 pure
+//@ C16 ensures source-unevaluated: len(args) == 1 && typeis(args[0], *SexpLazyArg) && args[0].(*SexpLazyArg).Expr != nil ==> r1 == nil && r0 == args[0].(*SexpLazyArg).Expr
+//@ C16 ensures strict-value-as-is: len(args) == 1 && !typeis(args[0], *SexpLazyArg) ==> r1 == nil && r0 == args[0]
+//@ func ForceFunction
+//@ C16 assert forces-that-argument @before call Force[0]: arg0 == args[0].(*SexpLazyArg) && arg1 == env
+//@ C16 ensures strict-value-as-is: old(len(args) == 1 && !typeis(args[0], *SexpLazyArg)) ==> r1 == nil && r0 == old(args[0])
+//@ func (PushLazyArgInstr).Execute
+//@ C16 assert wraps-the-source @before call NewSourceLazyArg[0]: arg0 == env && arg1 == p.expr
